@@ -293,6 +293,7 @@ class SymFloat:
                 cons.append(z3.Implies(z3.And(remt == 0, qt == 2 * qq + 1), adj == -1))
             else:
                 cons.append(z3.Implies(adj == -1, remt == 0))
+                cx.env['float_uncertain'] = cx.env.get('float_uncertain', 0) + 1
         else:
             cons.append(z3.Implies(adj == -1, remt <= band))
             cx.env['float_uncertain'] = cx.env.get('float_uncertain', 0) + 1
